@@ -25,7 +25,9 @@ PROPERTY = "C20"
 RULE = ("Hypothesis draws 1-3 factor matrices (rows 1-5, rank 1-6; explicit small integers or seeded Gaussians; rows < rank and "
         "duplicated / negated columns forced to create ties), passes them as a bare matrix or a list, with absolute_value on/off, and a "
         "second set that is independent, or a column-permuted and column-rescaled (signed, per mode) copy, optionally with noise. "
-        "Oracle for congruence_coefficient / cp_permute_factors: enumeration of all R! matchings of the product-over-modes cosine "
+        "Reference sets are int64/int32/uint8/bool/float32/float64 valued, derived sets float32/float64, either argument order; equivalent "
+        "and metamorphic cases additionally rescale one component by 1e-17 .. 1e120 (float32: 1e-12 .. 1e12); correlation_index also "
+        "with a drawn `tol`. Oracle for congruence_coefficient / cp_permute_factors: enumeration of all R! matchings of the product-over-modes cosine "
         "matrix (values compared, never permutations, so ties are accepted). CorrIndex: range, zero on equivalent sets, lower bound "
         "0.01/(2R) when a column has no partner with |cos| > 0.99, equality with the published formula, invariance. MSE/RMSE/R2/"
         "correlation/covariance/variance/std: NumPy definitions for every axis (incl. negative, None, omitted); the centred moments "
@@ -126,44 +128,105 @@ def _pair_case(draw, max_R=6, relation=("independent", "equivalent", "noisy"), m
         b = b if b < a else b + 1
         ed.append([draw(st.sampled_from(["dup", "negdup"])), j, a, b])
     c["edits"] = ed
+    # dtypes: the reference set may be integer valued (membership / count ground truth) or single precision; a candidate that is
+    # derived from it by non-integer rescaling is floating point; `swap` passes the pair in the other argument order
+    c["dt1"] = draw(st.sampled_from(DT_REF))
     if c["rel"] == "independent":
         c["m2"] = draw(_mats(rows, R))
+        c["dt2"] = draw(st.sampled_from(DT_REF))
     else:
+        c["dt2"] = draw(st.sampled_from(["float64", "float32"]))
         c["perm"] = list(draw(st.permutations(list(range(R)))))
         c["scal"] = [[k / 4 for k in draw(st.lists(st.integers(-8, 8).filter(lambda x: x != 0), min_size=R, max_size=R))] for _ in range(nm)]
         if c["rel"] == "noisy":
             c["nseed"] = draw(gen.seeds)
             c["nlevel"] = draw(st.sampled_from([1e-3, 0.1, 1.0]))
+        elif draw(st.integers(0, 2)) < 2:
+            # "non-zero scalings": one component of one matrix rescaled by an extreme but harmless factor (no under/overflow of
+            # the squared entries in the working precision; one column only, see notes: prod-of-norms underflow)
+            c["tiny"] = [draw(st.integers(0, nm - 1)), draw(st.integers(0, R - 1)), draw(st.sampled_from(TINY[c["dt2"]]))]
+    c["swap"] = draw(st.booleans())
     return c
 
 
+DT_REF = ["int64", "float64", "float32", "int32", "bool", "uint8"]
+# extreme-but-harmless rescalings: the squared entries (|entry| >= ~1e-4 after the ordinary k/4 scalings) must stay in the
+# normal range of the working precision, otherwise the library's norms lose digits to subnormals (not a defect)
+TINY = {"float64": [1e-17, 1e-120, 1e-6, 1e120], "float32": [1e-12, 1e-6, 1e12]}
+
+
+def _quant(m, dt):
+    """values representable in dtype dt, held in float64 (what the references see)"""
+    if dt == "float64":
+        return m
+    if dt == "float32":
+        return m.astype(np.float32).astype(np.float64)
+    if dt in ("int64", "int32"):
+        return np.rint(m)
+    if dt == "uint8":
+        return np.abs(np.rint(m))
+    if dt == "bool":
+        return (np.rint(m) != 0).astype(np.float64)
+    raise ValueError(dt)
+
+
+def _dts(case):
+    d = (case.get("dt1", "float64"), case.get("dt2", "float64"))
+    return d[::-1] if case.get("swap") else d
+
+
+def _fdt(dt):
+    """dtype of data derived from a dt-typed matrix by real rescaling"""
+    return dt if dt in ("float32", "float64") else "float64"
+
+
+def _as(ms, dt):
+    return [np.array(m, dtype=dt) for m in ms]
+
+
+def _vt(case, tight=VTOL):
+    """value tolerance: single precision anywhere in the pair limits the library to ~1e-7 per cosine"""
+    return 5e-6 if "float32" in _dts(case) else tight
+
+
 def _build_pair(case, positive_scal=False, common_scal=False):
+    """(matrix1 list, matrix2 list, #zero columns repaired): float64 arrays holding values representable in the case's dtypes;
+    the library receives them cast to those dtypes (_dts)"""
+    dt1, dt2 = case.get("dt1", "float64"), case.get("dt2", "float64")
     m1 = [np.array(gen.dec(e), dtype=float) for e in case["m1"]]
     for op, j, a, b in case["edits"]:
         m1[j][:, a] = m1[j][:, b] * (-1 if op == "negdup" else 1)
+    m1 = [_quant(m, dt1) for m in m1]
     nfix = _fix_zero_cols(m1)
     if case["rel"] == "independent":
-        m2 = [np.array(gen.dec(e), dtype=float) for e in case["m2"]]
+        m2 = [_quant(np.array(gen.dec(e), dtype=float), dt2) for e in case["m2"]]
         nfix += _fix_zero_cols(m2)
     else:
         p = case["perm"]
+        tiny = case.get("tiny")
         m2 = []
         for j, m in enumerate(m1):
-            s = np.array(case["scal"][0 if common_scal else j])
+            jj = 0 if common_scal else j
+            s = np.array(case["scal"][jj], dtype=float)
             if positive_scal:
                 s = np.abs(s)
+            if tiny is not None and (0 if common_scal else tiny[0]) == jj:
+                s[tiny[1]] *= tiny[2]
             x = (m * s)[:, p]
             if case["rel"] == "noisy":
                 rs = np.random.RandomState((case["nseed"] + j) % (2 ** 32))
                 x = x + case["nlevel"] * rs.standard_normal(x.shape)
-            m2.append(x)
+            m2.append(_quant(x, dt2))
         nfix += _fix_zero_cols(m2)
+    if case.get("swap"):
+        m1, m2 = m2, m1
     return m1, m2, nfix
 
 
 def _labels(case, extra=()):
     return [f"R={case['R']}", f"nmat={len(case['rows'])}", f"abs={case['absolute']}", f"bare={case['bare']}", f"rel={case['rel']}",
-            f"rows_lt_R={any(n < case['R'] for n in case['rows'])}", f"ties={bool(case['edits'])}"] + list(extra)
+            f"rows_lt_R={any(n < case['R'] for n in case['rows'])}", f"ties={bool(case['edits'])}",
+            "dtypes=%s/%s" % _dts(case), f"tiny={case['tiny'][2]:g}" if case.get("tiny") else "tiny=no"] + list(extra)
 
 
 def _nontrivial(case):
@@ -172,9 +235,11 @@ def _nontrivial(case):
     return case["rel"] == "independent" or case["perm"] != sorted(case["perm"])
 
 
-def _call_congruence(case, m1, m2):
-    a = m1[0].copy() if case["bare"] else [m.copy() for m in m1]
-    b = m2[0].copy() if case["bare"] else [m.copy() for m in m2]
+def _call_congruence(case, m1, m2, dts=None):
+    d1, d2 = dts or _dts(case)
+    m1, m2 = _as(m1, d1), _as(m2, d2)
+    a = m1[0] if case["bare"] else m1
+    b = m2[0] if case["bare"] else m2
     res = MF.congruence_coefficient(a, b, absolute_value=case["absolute"])
     try:
         val, perm = res
@@ -195,9 +260,10 @@ def _call_congruence(case, m1, m2):
 def o_congruence_optimal(case):
     m1, m2, nfix = _build_pair(case)
     val, perm = _call_congruence(case, m1, m2)
+    vt = _vt(case)
     C = product_cos(m1, m2, case["absolute"])
     best = brute_best(C)
-    check(abs(val - best) <= VTOL, "congruence/optimal-value", lambda: f"returned {val!r}, brute-force maximum over {case['R']}! matchings {best!r}")
+    check(abs(val - best) <= vt, "congruence/optimal-value", lambda: f"returned {val!r}, brute-force maximum over {case['R']}! matchings {best!r}")
     return {"nontrivial": _nontrivial(case), "labels": _labels(case)}
 
 
@@ -205,23 +271,25 @@ def o_congruence_perm(case):
     m1, m2, nfix = _build_pair(case)
     R = case["R"]
     val, perm = _call_congruence(case, m1, m2)
+    vt = _vt(case)
     check(sorted(perm) == list(range(R)), "congruence/is-permutation", lambda: f"{perm}")
     C = product_cos(m1, m2, case["absolute"])
     attained = float(C[np.arange(R), perm].mean())
     # the returned permutation maps column perm[i] of matrix2 onto column i of matrix1 and attains the returned value
-    check(abs(attained - val) <= VTOL, "congruence/perm-attains-value", lambda: f"mean cos under returned permutation {attained!r} != returned value {val!r} (perm {perm})")
+    check(abs(attained - val) <= vt, "congruence/perm-attains-value", lambda: f"mean cos under returned permutation {attained!r} != returned value {val!r} (perm {perm})")
     best = brute_best(C)
-    check(attained >= best - VTOL, "congruence/perm-optimal", lambda: f"returned permutation attains {attained!r} < maximum {best!r}")
+    check(attained >= best - vt, "congruence/perm-optimal", lambda: f"returned permutation attains {attained!r} < maximum {best!r}")
     return {"nontrivial": _nontrivial(case), "labels": _labels(case)}
 
 
 def o_congruence_range(case):
     m1, m2, nfix = _build_pair(case)
     val, perm = _call_congruence(case, m1, m2)
+    vt = _vt(case)
     if case["absolute"]:
-        check(-VTOL <= val <= 1 + VTOL, "congruence/range[0,1]", lambda: f"{val!r}")
+        check(-vt <= val <= 1 + vt, "congruence/range[0,1]", lambda: f"{val!r}")
     else:
-        check(-1 - VTOL <= val <= 1 + VTOL, "congruence/range[-1,1]", lambda: f"{val!r}")
+        check(-1 - vt <= val <= 1 + vt, "congruence/range[-1,1]", lambda: f"{val!r}")
     return {"nontrivial": _nontrivial(case), "labels": _labels(case)}
 
 
@@ -230,18 +298,19 @@ def o_congruence_equivalent(case):
     m1, m2, nfix = _build_pair(case, positive_scal=not case["absolute"])
     R = case["R"]
     val, perm = _call_congruence(case, m1, m2)
-    check(abs(val - 1) <= VTOL, "congruence/equivalent-value-1", lambda: f"{val!r}")
+    vt = _vt(case)
+    check(abs(val - 1) <= vt, "congruence/equivalent-value-1", lambda: f"{val!r}")
     check(sorted(perm) == list(range(R)), "congruence/is-permutation", lambda: f"{perm}")
     prod_signed = np.ones(R)
     for j, (a, b) in enumerate(zip(m1, m2)):
         d = np.diag(cos_matrix(a, b[:, perm], False))
         prod_signed = prod_signed * d
         # every matched pair is collinear in every matrix ...
-        check(bool(np.all(np.abs(np.abs(d) - 1) <= 1e-9)), "congruence/equivalent-recovers-columns",
+        check(bool(np.all(np.abs(np.abs(d) - 1) <= _vt(case, 1e-9))), "congruence/equivalent-recovers-columns",
               lambda: f"matrix {j}: cos(matrix1[:, i], matrix2[:, perm[i]]) = {d.tolist()} (perm {perm}, applied {case['perm']})")
     if not case["absolute"]:
         # ... and, without absolute values, with an overall positive orientation (product over the matrices)
-        check(bool(np.all(np.abs(prod_signed - 1) <= 1e-9)), "congruence/equivalent-recovers-orientation", lambda: f"{prod_signed.tolist()}")
+        check(bool(np.all(np.abs(prod_signed - 1) <= _vt(case, 1e-9))), "congruence/equivalent-recovers-orientation", lambda: f"{prod_signed.tolist()}")
     return {"nontrivial": _nontrivial(case), "labels": _labels(case)}
 
 
@@ -252,21 +321,30 @@ def _meta_case(draw):
     c["q"] = list(draw(st.permutations(list(range(R)))))
     c["qscal"] = [[k / 4 for k in draw(st.lists(st.integers(1, 8), min_size=R, max_size=R))] for _ in range(nm)]
     c["qsign"] = [[draw(st.sampled_from([-1, 1])) for _ in range(R)] for _ in range(nm)]
+    if draw(st.integers(0, 2)) < 2:     # one component rescaled by an extreme factor
+        c["qtiny"] = [draw(st.integers(0, nm - 1)), draw(st.integers(0, R - 1)), draw(st.sampled_from(TINY[_fdt(_dts(c)[1])]))]   # dtype of the second argument after `swap`
     return c
+
+
+def _qscal(case, j, signed):
+    s = np.array(case["qscal"][j], dtype=float) * (np.array(case["qsign"][j]) if signed else 1.0)
+    qt = case.get("qtiny")
+    if qt is not None and qt[0] == j:
+        s[qt[1]] *= qt[2]
+    return s
 
 
 def o_congruence_invariance(case):
     m1, m2, nfix = _build_pair(case)
     val, _ = _call_congruence(case, m1, m2)
+    vt = _vt(case)
     q = case["q"]
-    m2b = []
-    for j, m in enumerate(m2):
-        s = np.array(case["qscal"][j]) * (np.array(case["qsign"][j]) if case["absolute"] else 1.0)
-        m2b.append((m * s)[:, q])
-    val_b, _ = _call_congruence(case, m1, m2b)
-    check(abs(val - val_b) <= VTOL, "congruence/invariant-under-permutation+scaling", lambda: f"{val!r} vs {val_b!r} after permuting matrix2 by {q}")
-    val_s, _ = _call_congruence(case, m2, m1)
-    check(abs(val - val_s) <= VTOL, "congruence/symmetric", lambda: f"c(m1,m2)={val!r} c(m2,m1)={val_s!r}")
+    d1, d2 = _dts(case)
+    m2b = [_quant((m * _qscal(case, j, case["absolute"]))[:, q], _fdt(d2)) for j, m in enumerate(m2)]
+    val_b, _ = _call_congruence(case, m1, m2b, (d1, _fdt(d2)))
+    check(abs(val - val_b) <= vt, "congruence/invariant-under-permutation+scaling", lambda: f"{val!r} vs {val_b!r} after permuting matrix2 by {q}")
+    val_s, _ = _call_congruence(case, m2, m1, (d2, d1))
+    check(abs(val - val_s) <= vt, "congruence/symmetric", lambda: f"c(m1,m2)={val!r} c(m2,m1)={val_s!r}")
     return {"nontrivial": case["R"] >= 3 and q != sorted(q), "labels": _labels(case)}
 
 
@@ -281,15 +359,34 @@ def _ci_case(draw, relation):
     c = draw(_pair_case(relation=relation))
     c["bare"] = False
     c["method"] = draw(st.sampled_from(METHODS + ["default"]))
+    c["tol"] = draw(st.sampled_from(CI_TOLS))
     return c
 
 
-def _call_ci(case, f1, f2):
+# the `tol` argument: "precision threshold below which to call the CorrIndex score 0" (default 5e-16; 1e-5 is what one would use
+# with single-precision factors)
+CI_TOLS = ["default", 1e-5, 1e-12, 5e-16]
+
+
+def _ci_tol(case):
+    t = case.get("tol", "default")
+    return 5e-16 if t == "default" else float(t)
+
+
+def _call_ci(case, f1, f2, dts=None):
+    d1, d2 = dts or _dts(case)
     kw = {} if case["method"] == "default" else {"method": case["method"]}
-    s = MS.correlation_index([m.copy() for m in f1], [m.copy() for m in f2], **kw)
+    if case.get("tol", "default") != "default":
+        kw["tol"] = case["tol"]
+    s = MS.correlation_index(_as(f1, d1), _as(f2, d2), **kw)
     v = as_array(s, "corrindex/structure")
     check(v.ndim == 0 and np.isfinite(v), "corrindex/structure", lambda: f"score {s!r}")
     return float(v)
+
+
+def _ci_same(got, want, tol, vt):
+    """got equals want, or both lie in the band that `tol` rounds to 0"""
+    return abs(got - want) <= vt or max(got, want) <= tol + vt
 
 
 def _method(case):
@@ -299,15 +396,17 @@ def _method(case):
 def o_ci_range(case):
     f1, f2, _ = _build_pair(case)
     s = _call_ci(case, f1, f2)
-    check(-VTOL <= s <= 1 + VTOL, "corrindex/range[0,1]", lambda: f"{s!r} (method {case['method']})")
-    return {"nontrivial": case["R"] >= 2, "labels": _labels(case, [f"method={case['method']}"])}
+    vt, tol = _vt(case), _ci_tol(case)
+    check(-vt <= s <= 1 + vt, "corrindex/range[0,1]", lambda: f"{s!r} (method {case['method']})")
+    return {"nontrivial": case["R"] >= 2, "labels": _labels(case, [f"method={case['method']}", f"tol={case.get('tol', 'default')}"])}
 
 
 def o_ci_definition(case):
     f1, f2, _ = _build_pair(case)
     s = _call_ci(case, f1, f2)
-    want = corr_index_ref(f1, f2, _method(case))
-    check(abs(s - want) <= VTOL, "corrindex/definition", lambda: f"{s!r} != formula {want!r} (method {case['method']})")
+    vt, tol = _vt(case), _ci_tol(case)
+    want = float(corr_index_ref(f1, f2, _method(case)))
+    check(_ci_same(s, want, tol, vt), "corrindex/definition", lambda: f"{s!r} != formula {want!r} (method {case['method']}, tol {tol:g})")
     # lower bound: some column without a partner with |cos| > 0.99  ==>  score > 0 (at least 0.01 / 2R in that matrix)
     R = case["R"]
     if _method(case) == "stacked":
@@ -326,7 +425,7 @@ def o_ci_definition(case):
     else:
         bound = 0.01 / (2 * R) * sum(lonely) / len(lonely) if any(lonely) else None
     if bound is not None:
-        check(s >= bound - VTOL, "corrindex/positive-when-unmatched", lambda: f"score {s!r} < {bound!r} although a column has no partner (method {m})")
+        check(s >= bound - vt or bound <= tol, "corrindex/positive-when-unmatched", lambda: f"score {s!r} < {bound!r} although a column has no partner (method {m})")
     return {"nontrivial": case["R"] >= 2, "labels": _labels(case, [f"method={case['method']}", f"unmatched={bound is not None}"])}
 
 
@@ -335,8 +434,9 @@ def o_ci_equivalent(case):
     # 'stacked' normalises the vertically stacked columns: only a per-component scaling common to all modes is an equivalence there
     f1, f2, _ = _build_pair(case, common_scal=(m == "stacked"))
     s = _call_ci(case, f1, f2)
-    check(abs(s) <= VTOL, "corrindex/equivalent-zero", lambda: f"score {s!r} for a column-permuted, column-rescaled copy (method {case['method']})")
-    return {"nontrivial": _nontrivial(case), "labels": _labels(case, [f"method={case['method']}"])}
+    vt, tol = _vt(case), _ci_tol(case)
+    check(abs(s) <= vt, "corrindex/equivalent-zero", lambda: f"score {s!r} for a column-permuted, column-rescaled copy (method {case['method']})")
+    return {"nontrivial": _nontrivial(case), "labels": _labels(case, [f"method={case['method']}", f"tol={case.get('tol', 'default')}"])}
 
 
 @st.composite
@@ -345,6 +445,7 @@ def _ci_meta_case(draw):
     c["bare"] = False
     c["absolute"] = True
     c["method"] = draw(st.sampled_from(METHODS + ["default"]))
+    c["tol"] = draw(st.sampled_from(CI_TOLS))
     return c
 
 
@@ -352,17 +453,18 @@ def o_ci_invariance(case):
     f1, f2, _ = _build_pair(case)
     m = _method(case)
     s = _call_ci(case, f1, f2)
+    vt, tol = _vt(case), _ci_tol(case)
     q = case["q"]
-    f2b = []
-    for j, x in enumerate(f2):
-        jj = 0 if m == "stacked" else j
-        sc = np.array(case["qscal"][jj]) * np.array(case["qsign"][jj])
-        f2b.append((x * sc)[:, q])
-    sb = _call_ci(case, f1, f2b)
-    check(abs(s - sb) <= VTOL, "corrindex/invariant-under-permutation+scaling", lambda: f"{s!r} vs {sb!r} (method {m}, q={q})")
-    ss = _call_ci(case, f2, f1)
-    check(abs(s - ss) <= VTOL, "corrindex/symmetric", lambda: f"{s!r} vs {ss!r}")
-    return {"nontrivial": case["R"] >= 3 and q != sorted(q), "labels": _labels(case, [f"method={case['method']}"])}
+    d1, d2 = _dts(case)
+    qt = case.get("qtiny")
+    if m == "stacked" and qt is not None:      # common scaling: the extreme factor sits in the common row
+        case = dict(case, qtiny=[0, qt[1], qt[2]])
+    f2b = [_quant((x * _qscal(case, 0 if m == "stacked" else j, True))[:, q], _fdt(d2)) for j, x in enumerate(f2)]
+    sb = _call_ci(case, f1, f2b, (d1, _fdt(d2)))
+    check(_ci_same(s, sb, tol, vt), "corrindex/invariant-under-permutation+scaling", lambda: f"{s!r} vs {sb!r} (method {m}, q={q})")
+    ss = _call_ci(case, f2, f1, (d2, d1))
+    check(_ci_same(s, ss, tol, vt), "corrindex/symmetric", lambda: f"{s!r} vs {ss!r}")
+    return {"nontrivial": case["R"] >= 3 and q != sorted(q), "labels": _labels(case, [f"method={case['method']}", f"tol={case.get('tol', 'default')}"])}
 
 
 # ----------------------------------------------------------------------------
@@ -392,8 +494,10 @@ def o_cp_permute(case):
     f1, f2, _ = _build_pair(case)
     R = case["R"]
     w1, w2 = np.array(case["w1"]), np.array(case["w2"])
-    refcp = CP.CPTensor((w1.copy(), [f.copy() for f in f1]))
-    t = CP.CPTensor((w2.copy(), [f.copy() for f in f2]))
+    d1, d2 = _dts(case)
+    vt = _vt(case)
+    refcp = CP.CPTensor((w1.copy(), _as(f1, d1)))
+    t = CP.CPTensor((w2.copy(), _as(f2, d2)))
     res = CP.cp_permute_factors(refcp, [t] if case["as_list"] else t)
     try:
         out, perms = res
@@ -412,16 +516,16 @@ def o_cp_permute(case):
     close(ow, w2[perm], "cp_permute_factors/perm-applied", rel=0, scale=1.0)
     # same tensor
     scale = float(np.max(ref.cp_dense(np.abs(w2), [np.abs(f) for f in f2])))
-    close(ref.cp_dense(ow, ofs), ref.cp_dense(w2, f2), "cp_permute_factors/dense", rel=1e-9, scale=scale)
+    close(ref.cp_dense(np.asarray(ow, dtype=float), [np.asarray(o, dtype=float) for o in ofs]), ref.cp_dense(w2, f2), "cp_permute_factors/dense", rel=1e-9, scale=scale)
     # aligned: the matching is an optimal one for the product-over-modes |cos|
     C = product_cos(f1, f2, True)
     attained = float(C[np.arange(R), perm].mean())
     best = brute_best(C)
-    check(attained >= best - VTOL, "cp_permute_factors/optimal-alignment", lambda: f"alignment attains {attained!r} < best {best!r} (perm {perm})")
+    check(attained >= best - vt, "cp_permute_factors/optimal-alignment", lambda: f"alignment attains {attained!r} < best {best!r} (perm {perm})")
     if case["rel"] == "equivalent":
         for j in range(len(f1)):
-            d = np.diag(cos_matrix(f1[j], ofs[j], True))
-            check(bool(np.all(np.abs(d - 1) <= 1e-9)), "cp_permute_factors/aligned-collinear", lambda: f"mode {j}: |cos| {d.tolist()}")
+            d = np.diag(cos_matrix(f1[j], np.asarray(ofs[j], dtype=float), True))
+            check(bool(np.all(np.abs(d - 1) <= _vt(case, 1e-9))), "cp_permute_factors/aligned-collinear", lambda: f"mode {j}: |cos| {d.tolist()}")
     return {"nontrivial": _nontrivial(case), "labels": _labels(case, [f"as_list={case['as_list']}"])}
 
 
